@@ -222,6 +222,12 @@ def shape_tags(asg) -> list[str]:
             for k in contracted & expr_indexes(n["l"]) & expr_indexes(n["r"]):
                 if not in_every_term(n["l"], k) and not in_every_term(n["r"], k):
                     tags.append("product-of-partial-sums")
+    for n in _nodes(asg["rhs"]):
+        # the IR mirrors the expression tree; a sum directly under the right of a sum (or product under product) is
+        # printed without parentheses by the C back end
+        if (n["k"] == "+" and n["r"]["k"] in "+") or (n["k"] == "*" and n["r"]["k"] == "*") or \
+                (n["k"] == "+" and n["r"]["k"] == "-"):
+            tags.append("right-nested-assoc")
     for lit in literals(asg["rhs"]):
         if lit["v"] is None or abs(lit["v"]["n"]) > 32767:
             fr = Fraction(lit["text"]) if "e" not in lit["text"].lower() else Fraction(float(lit["text"]))
